@@ -9,6 +9,9 @@ from .facts import Fn, pp_const
 MAXDEPTH = 60
 
 
+VERSIONED = True
+
+
 class E:
     __slots__ = ('k', 'name', 'args', 'site', 'ty', 'c')
 
@@ -437,15 +440,191 @@ class Prov:
                     e0 = self._project(base, pp, block, idx, depth)
                     return E('phi', None, [e0] + [self._project(self.rvalue(st['rv'], b, i, depth + 1, None), pp[2:], block, idx, depth) for (b, i, st, n) in stores if n == 2])
         base = self.local(pl['l'], block, idx, depth)
-        return self._project(base, pl['p'], block, idx, depth)
+        return self._project(base, pl['p'], block, idx, depth, pl['l'])
 
-    def _project(self, base, projs, block, idx, depth):
+    # ---- memory versions: element stores an element read may see --------------------------------------------------
+    def root_of(self, l, projs, b, i, depth=0):
+        """object a place lives in: ('param', n, field..) / ('local', n, field..), resolving pointer temporaries"""
+        fn = self.fn
+        pp = list(projs)
+        if pp and pp[0] == 'deref':
+            if 1 <= l <= fn.arg_count and self.reaching(l, b, i) == [None]:
+                base = ('param', l)
+            else:
+                base = self.ptr_target(l, b, i, depth)
+            pp = pp[1:]
+        else:
+            base = ('local', l)
+        fl = []
+        for q in pp:
+            if isinstance(q, dict) and 'f' in q:
+                fl.append(str(q.get('name') or q['f']))
+                continue
+            if isinstance(q, dict) and 'downcast' in q:
+                continue
+            break
+        return base + tuple(fl)
+
+    def ptr_target(self, l, b, i, depth=0):
+        fn = self.fn
+        if depth > 24:
+            return ('local', l)
+        rs = self.reaching(l, b, i)
+        if len(rs) != 1 or rs[0] == 'IN':
+            return ('local', l)
+        if rs[0] is None:
+            return ('param', l) if 1 <= l <= fn.arg_count else ('local', l)
+        db, di = rs[0]
+        if di == -1:
+            t = fn.blocks[db]['term']
+            if t['fn']['k'] == 'def' and last(t['fn']['name']) in ('index_mut', 'index', 'deref_mut', 'deref', 'as_mut_slice', 'as_slice', 'as_mut', 'as_ref', 'borrow_mut', 'borrow', 'as_mut_ptr', 'as_ptr') \
+                    and t['args'] and t['args'][0]['k'] in ('copy', 'move'):
+                a = t['args'][0]['pl']
+                n = len(fn.blocks[db]['stmts'])
+                if (fn.local_ty(a['l']) or '').startswith(('&', '*')) and not a['p']:
+                    return self.ptr_target(a['l'], db, n, depth + 1)
+                return self.root_of(a['l'], a['p'], db, n, depth + 1)
+            return ('local', l)
+        rv = fn.blocks[db]['stmts'][di]['rv']
+        if rv['k'] in ('ref', 'rawptr'):
+            return self.root_of(rv['pl']['l'], rv['pl']['p'], db, di, depth + 1)
+        if rv['k'] in ('use', 'cast') and rv['op']['k'] in ('copy', 'move'):
+            q = rv['op']['pl']
+            if not q['p']:
+                return self.ptr_target(q['l'], db, di, depth + 1)
+        return ('local', l)
+
+    def _const_local(self, l, b, i):
+        """value of an index local when it is a literal (`k[0]` is compiled to `k[_n]` with `_n = const 0`)"""
+        rs = self.reaching(l, b, i)
+        if len(rs) == 1 and rs[0] not in (None, 'IN') and rs[0][1] >= 0:
+            rv = self.fn.blocks[rs[0][0]]['stmts'][rs[0][1]]['rv']
+            if rv['k'] == 'use' and rv['op']['k'] == 'const':
+                return const_int(self.const(rv['op']['c']))
+        # checked arithmetic on literals (`t[8 - 1]`)
+        key = ('constlocal', l, b, i)
+        if key not in self._cache:
+            self._cache[key] = None
+            try:
+                from .rules_i import eval_small
+                v = eval_small(norm(self.local(l, b, i)), {})
+                self._cache[key] = v if isinstance(v, int) and not isinstance(v, bool) else None
+            except RecursionError:
+                pass
+        return self._cache[key]
+
+    def elem_stores(self):
+        """every statement or call that may write elements of an indexable object: (block, idx, root, const index | None,
+        kills) with idx = len(stmts) for a call; `kills` when it overwrites the whole object"""
+        if '_elem_stores' in self._cache:
+            return self._cache['_elem_stores']
+        fn = self.fn
+        out = []
+        self._cache['_elem_stores'] = out      # (re-entrancy guard: reaching() below does not need it)
+        for b, bl in enumerate(fn.blocks):
+            for i, st in enumerate(bl['stmts']):
+                if st['k'] != 'assign':
+                    continue
+                lhs = st['lhs']
+                pp = lhs['p']
+                ip = [k_ for k_, q in enumerate(pp) if isinstance(q, dict) and ('idx' in q or 'cidx' in q or 'subslice' in q)]
+                if ip:
+                    q = pp[ip[0]]
+                    ci = q['cidx'] if 'cidx' in q and not q.get('from_end') else None
+                    if 'idx' in q:
+                        ci = self._const_local(q['idx'], b, i)
+                    out.append((b, i, self.root_of(lhs['l'], pp[:ip[0]], b, i), ci, False, q))
+                elif pp:
+                    # a field or whole-object store through a pointer: everything below it is overwritten
+                    out.append((b, i, self.root_of(lhs['l'], pp, b, i), None, True, None))
+                else:
+                    out.append((b, i, ('local', lhs['l']), None, True, None))
+            t = bl['term']
+            if t['k'] == 'call':
+                n = len(bl['stmts'])
+                d = t.get('dest')
+                if d is not None and not d['p']:
+                    out.append((b, n, ('local', d['l']), None, True, None))
+                nm = last(t['fn']['name']) if t['fn']['k'] == 'def' else '?'
+                if nm in ('index_mut', 'deref_mut', 'as_mut_slice', 'as_mut', 'borrow_mut', 'iter_mut', 'as_mut_ptr', 'len', 'index', 'deref', 'iter'):
+                    continue
+                for a in t['args']:
+                    if a['k'] in ('copy', 'move') and not a['pl']['p'] and (fn.local_ty(a['pl']['l']) or '').startswith(('&mut ', '*mut ')):
+                        out.append((b, n, self.ptr_target(a['pl']['l'], b, n), None, False, 'call:' + nm))
+        return out
+
+    @staticmethod
+    def _roots_alias(x, y):
+        n = min(len(x), len(y))
+        return x[:n] == y[:n]
+
+    def reach_stores(self, l, before, proj, block, idx, calls_only=False):
+        """memory version seen by the element read `place[proj]` at (block, idx): on every path backwards, the latest event
+        that may write the element -- 'E' (the object as it was created, assigned as a whole or passed in) or (block, idx)
+        of an element store that may alias it or of a call holding `&mut` to the object -- as a sorted tuple.  Two reads
+        with the same version set see the same memory.  None when the object is never written element-wise here."""
+        fn = self.fn
+        root = self.root_of(l, before, block, idx)
+        stores = [s_ for s_ in self.elem_stores() if self._roots_alias(s_[2], root)]
+        if calls_only:
+            # direct field stores are handled by store->load forwarding; what is left are calls that may write the field
+            stores = [s_ for s_ in stores if isinstance(s_[5], str)]
+        if not any(not s_[4] for s_ in stores):
+            return None
+        ci = proj.get('cidx') if 'cidx' in proj and not proj.get('from_end') else None
+        if 'idx' in proj:
+            ci = self._const_local(proj['idx'], block, idx)
+        at = {}
+        for s_ in stores:
+            at.setdefault(s_[0], []).append(s_)
+        res = set()
+        seen = set()
+
+        def scan(b, upto):
+            for s_ in sorted(at.get(b, ()), key=lambda s_: -s_[1]):
+                if s_[1] >= upto:
+                    continue
+                if s_[4] and len(s_[2]) <= len(root):
+                    res.add('E')
+                    return
+                if s_[3] is not None and ci is not None and s_[3] != ci:
+                    continue
+                # the latest write event that certainly touches the element (same constant index, a call holding `&mut`)
+                # ends the walk; a store at a computed index may or may not touch it, so the walk goes on past it
+                res.add((s_[0], s_[1]))
+                if isinstance(s_[5], str) or (s_[3] is not None and s_[3] == ci and len(s_[2]) == len(root)):
+                    return
+            if b == 0:
+                res.add('E')
+            for p_ in fn.pred(b):
+                if p_ in seen:
+                    continue
+                seen.add(p_)
+                scan(p_, len(fn.blocks[p_]['stmts']) + 1)
+        scan(block, idx)
+        return tuple(sorted(res, key=lambda x: (0, 0, 0) if x == 'E' else (1,) + x))
+
+    def _project(self, base, projs, block, idx, depth, root_l=None):
         e = base
-        for p in projs:
+        for k_, p in enumerate(projs):
+            if root_l is not None and isinstance(p, dict) and ('idx' in p or 'cidx' in p) and VERSIONED:
+                # an element read: which element stores of the same object it may see (memory versions)
+                rs = self.reach_stores(root_l, projs[:k_], p, block, idx)
+                if rs is not None and rs != ('E',):
+                    if 'idx' in p:
+                        e = E('index', None, [e, self.local(p['idx'], block, idx, depth + 1)], c={'reach': rs})
+                    else:
+                        e = E('index', '%s%d' % ('-' if p['from_end'] else '', p['cidx']), [e], c={'reach': rs})
+                    continue
             if p == 'deref':
                 e = mk_deref(e)
             elif 'f' in p:
                 e = mk_field(e, p['name'], p['f'])
+                if root_l is not None and VERSIONED and k_ == len(projs) - 1 and e.k == 'field' and projs[0] == 'deref':
+                    # a field read through a pointer: the calls holding `&mut` to the object that it may come after
+                    rs = self.reach_stores(root_l, projs, {}, block, idx, calls_only=True)
+                    if rs is not None and rs != ('E',):
+                        e.c = dict(e.c or {}, reach=rs)
             elif 'idx' in p:
                 e = E('index', None, [e, self.local(p['idx'], block, idx, depth + 1)])
             elif 'cidx' in p:
